@@ -132,6 +132,8 @@ pub enum Obs {
     Hint(usize, Option<usize>),
     Count(usize),
     Items(Vec<Item>),
+    /// between two actions on one container form
+    Sep,
     NoRange,
     NotMutable,
 }
@@ -267,7 +269,28 @@ pub enum Op {
     Drain { r: RangeGen, sched: Vec<Step>, end: End },
     /// owned `into_iter`; afterwards the container is rebuilt from what was yielded (`collect`)
     IntoIter { sched: Vec<Step>, end: End },
-    Snap { form: Form, action: u8, i: u16, r: RangeGen, sched: Vec<Step>, end: End },
+    /// One to three actions in a row on ONE instance of another container form (Box, array, slice, mut
+    /// slice) built from a copy of the current contents; afterwards the form is read back through itself.
+    Snap {
+        form: Form,
+        action: u8,
+        i: u16,
+        r: RangeGen,
+        sched: Vec<Step>,
+        end: End,
+        /// further actions on the same instance
+        #[serde(default)]
+        more: Vec<SnapMore>,
+    },
+}
+
+#[derive(Clone, Debug, Serialize, Deserialize, Hash, PartialEq, Eq)]
+pub struct SnapMore {
+    pub action: u8,
+    pub i: u16,
+    pub r: RangeGen,
+    pub sched: Vec<Step>,
+    pub end: End,
 }
 
 impl Op {
@@ -507,6 +530,25 @@ impl World for C18 {
                         gen_sched(rng, mutable, false, &mut fresh)
                     },
                     end: gen_end(rng, false),
+                    more: {
+                        let n_more = match rng.below(6) {
+                            0..=2 => 0,
+                            3..=4 => 1,
+                            _ => 2,
+                        };
+                        (0..n_more)
+                            .map(|_| SnapMore {
+                                action: rng.below(8) as u8,
+                                i: rng.below(64) as u16,
+                                r: gen_range(rng),
+                                sched: {
+                                    let mutable = rng.chance(1, 2);
+                                    gen_sched(rng, mutable, false, &mut fresh)
+                                },
+                                end: gen_end(rng, false),
+                            })
+                            .collect()
+                    },
                 },
             };
             ops.push(op);
@@ -604,12 +646,30 @@ impl World for C18 {
                         simpler.push(Op::IntoIter { sched: sched.clone(), end: End::Drop });
                     }
                 }
-                Op::Snap { form, action, i, r, sched, end } => {
+                Op::Snap { form, action, i, r, sched, end, more } => {
                     for s in shrink_sched(sched) {
-                        simpler.push(Op::Snap { form: *form, action: *action, i: *i, r: *r, sched: s, end: *end });
+                        simpler.push(Op::Snap { form: *form, action: *action, i: *i, r: *r, sched: s, end: *end, more: more.clone() });
                     }
                     if *end != End::Drop {
-                        simpler.push(Op::Snap { form: *form, action: *action, i: *i, r: *r, sched: sched.clone(), end: End::Drop });
+                        simpler.push(Op::Snap { form: *form, action: *action, i: *i, r: *r, sched: sched.clone(), end: End::Drop, more: more.clone() });
+                    }
+                    if !more.is_empty() {
+                        simpler.push(Op::Snap { form: *form, action: *action, i: *i, r: *r, sched: sched.clone(), end: *end, more: Vec::new() });
+                        for k in 0..more.len() {
+                            let mut m2 = more.clone();
+                            m2.remove(k);
+                            simpler.push(Op::Snap { form: *form, action: *action, i: *i, r: *r, sched: sched.clone(), end: *end, more: m2 });
+                        }
+                        // without the first action
+                        let m0 = &more[0];
+                        simpler.push(Op::Snap { form: *form, action: m0.action, i: m0.i, r: m0.r, sched: m0.sched.clone(), end: m0.end, more: more[1..].to_vec() });
+                        for (k, m) in more.iter().enumerate() {
+                            for sch in shrink_sched(&m.sched).into_iter().take(6) {
+                                let mut m2 = more.clone();
+                                m2[k].sched = sch;
+                                simpler.push(Op::Snap { form: *form, action: *action, i: *i, r: *r, sched: sched.clone(), end: *end, more: m2 });
+                            }
+                        }
                     }
                 }
                 _ => {}
@@ -661,6 +721,7 @@ impl World for C18 {
                 "nth_back-jump-inside",
                 "rev-then-skip-or-step_by",
                 "last-fold-rfold",
+                "snap-several-actions-on-one-form",
             ],
             expected_faults: vec!["cancel", "leak", "unwind@source", "unwind@loop-body", "contract-panic"],
             time_note: "palette has no clock; simulated time is reported as steps_executed",
@@ -761,6 +822,7 @@ impl<'c, 'a> Exec<'c, 'a> {
                 }
                 Obs::NoRange => h.u64(6),
                 Obs::NotMutable => h.u64(7),
+                Obs::Sep => h.u64(9),
             }
         }
         ev!(self.ctx, "  observed {op}: {} observations, digest {:016x}", sut.len(), h.finish());
@@ -1294,7 +1356,7 @@ impl<'c, 'a> Exec<'c, 'a> {
                 }
                 Some("ok")
             }
-            Op::Snap { form, action, i, r, sched, end } => {
+            Op::Snap { form, action, i, r, sched, end, more } => {
                 let form = match form {
                     Form::Array(nn) => {
                         // the largest supported N not above the current length
@@ -1304,65 +1366,99 @@ impl<'c, 'a> Exec<'c, 'a> {
                     f => *f,
                 };
                 let flen = if let Form::Array(nn) = form { nn } else { len };
-                let spec = r.resolve(flen);
-                let idx = if flen == 0 || *i % 5 == 4 { flen + (*i as usize % 3) } else { *i as usize % flen };
-                let sched_w = self.shape_sched(sched);
-                let sched_r: Vec<Step> = sched.iter().copied().filter(|s| !matches!(s, Step::NextSet(_) | Step::NextBackSet(_))).collect();
-                let newv = self.make(900_000 + n as u32);
-                let act = match action % 8 {
-                    0 => SnapAction::Iter(sched_r.clone(), *end),
-                    1 => SnapAction::IterMethod(sched_r.clone(), *end),
-                    2 => SnapAction::IterMut(sched_w.clone(), *end),
-                    3 => SnapAction::IntoIter(if form == Form::MutSlice { sched_w.clone() } else { sched_r.clone() }, *end),
-                    4 => SnapAction::Get(idx),
-                    5 => SnapAction::GetRange(spec.clone(), sched_r.clone(), *end),
-                    6 => SnapAction::GetMut(idx, newv),
-                    _ => SnapAction::GetMutRange(spec.clone(), sched_w.clone(), *end),
-                };
-                let Some(res) = self.sut.as_ref().unwrap().snap(form, &act) else {
+                // the actions, in order; a by-value `into_iter` consumes the form (except `&[T]`, which is
+                // `Copy`), so it can only come last: an earlier one becomes a borrowed `iter`
+                let mut specs: Vec<(u8, u16, RangeGen, &Vec<Step>, End)> = vec![(*action, *i, *r, sched, *end)];
+                for m in more {
+                    specs.push((m.action, m.i, m.r, &m.sched, m.end));
+                }
+                let last = specs.len() - 1;
+                let mut acts: Vec<SnapAction> = Vec::new();
+                for (k, (action, i, r, sched, end)) in specs.iter().enumerate() {
+                    let spec = r.resolve(flen);
+                    let idx = if flen == 0 || *i % 5 == 4 { flen + (*i as usize % 3) } else { *i as usize % flen };
+                    let sched_w = self.shape_sched(sched);
+                    let sched_r: Vec<Step> = sched.iter().copied().filter(|s| !matches!(s, Step::NextSet(_) | Step::NextBackSet(_))).collect();
+                    let newv = self.make(900_000 + (n as u32) * 4 + k as u32);
+                    let mut a = action % 8;
+                    if a == 3 && k != last && form != Form::Slice {
+                        a = 0;
+                    }
+                    acts.push(match a {
+                        0 => SnapAction::Iter(sched_r.clone(), *end),
+                        1 => SnapAction::IterMethod(sched_r.clone(), *end),
+                        2 => SnapAction::IterMut(sched_w.clone(), *end),
+                        3 => SnapAction::IntoIter(if form == Form::MutSlice { sched_w.clone() } else { sched_r.clone() }, *end),
+                        4 => SnapAction::Get(idx),
+                        5 => SnapAction::GetRange(spec.clone(), sched_r.clone(), *end),
+                        6 => SnapAction::GetMut(idx, newv),
+                        _ => SnapAction::GetMutRange(spec.clone(), sched_w.clone(), *end),
+                    });
+                }
+                let Some(res) = self.sut.as_ref().unwrap().snap(form, &acts) else {
                     return Some("unsupported");
                 };
-                // the same action on a copy of the model
+                if acts.len() > 1 {
+                    self.ctx.probe("snap-several-actions-on-one-form");
+                }
+                // the same actions on a copy of the model
                 let mut copy: Vec<Item> = self.model[..flen].to_vec();
                 let mut consumed = false;
-                let m: Vec<Obs> = match &act {
-                    SnapAction::Iter(s, e) | SnapAction::IterMethod(s, e) => run_sched(Box::new(ReadIt(copy.iter(), |x: &Item| *x)), s, *e),
-                    SnapAction::IterMut(s, e) => run_sched(Box::new(WriteIt(copy.iter_mut(), |x: &&mut Item| **x, |x: &mut &mut Item, v: Item| **x = v)), s, *e),
-                    SnapAction::IntoIter(s, e) => match form {
-                        Form::MutSlice => run_sched(Box::new(WriteIt(copy.iter_mut(), |x: &&mut Item| **x, |x: &mut &mut Item, v: Item| **x = v)), s, *e),
-                        Form::Slice => run_sched(Box::new(ReadIt(copy.iter(), |x: &Item| *x)), s, *e),
-                        _ => {
-                            consumed = true;
-                            run_sched(Box::new(ReadIt(std::mem::take(&mut copy).into_iter(), |x: Item| x)), s, *e)
-                        }
-                    },
-                    SnapAction::Get(i) => vec![Obs::Item(copy.get(*i).copied())],
-                    SnapAction::GetRange(r, s, e) => match model_get(&copy, r) {
-                        None => vec![Obs::NoRange],
-                        Some(sl) => run_sched(Box::new(ReadIt(sl.iter(), |x: &Item| *x)), s, *e),
-                    },
-                    SnapAction::GetMut(i, nv) => vec![Obs::Item(copy.get_mut(*i).map(|slot| {
-                        let old = *slot;
-                        *slot = *nv;
-                        old
-                    }))],
-                    SnapAction::GetMutRange(r, s, e) => match model_get_mut(&mut copy, r) {
-                        None => vec![Obs::NoRange],
-                        Some(sl) => run_sched(Box::new(WriteIt(sl.iter_mut(), |x: &&mut Item| **x, |x: &mut &mut Item, v: Item| **x = v)), s, *e),
-                    },
-                };
-                ev!(self.ctx, "{n} snap {form:?} action={} len={flen}", action % 8);
+                let mut m: Vec<Obs> = Vec::new();
+                for act in acts.iter() {
+                    let t: Vec<Obs> = match act {
+                        SnapAction::Iter(s, e) | SnapAction::IterMethod(s, e) => run_sched(Box::new(ReadIt(copy.iter(), |x: &Item| *x)), s, *e),
+                        SnapAction::IterMut(s, e) => run_sched(Box::new(WriteIt(copy.iter_mut(), |x: &&mut Item| **x, |x: &mut &mut Item, v: Item| **x = v)), s, *e),
+                        SnapAction::IntoIter(s, e) => match form {
+                            Form::MutSlice => {
+                                consumed = true;
+                                run_sched(Box::new(WriteIt(copy.iter_mut(), |x: &&mut Item| **x, |x: &mut &mut Item, v: Item| **x = v)), s, *e)
+                            }
+                            Form::Slice => run_sched(Box::new(ReadIt(copy.iter(), |x: &Item| *x)), s, *e),
+                            _ => {
+                                consumed = true;
+                                run_sched(Box::new(ReadIt(std::mem::take(&mut copy).into_iter(), |x: Item| x)), s, *e)
+                            }
+                        },
+                        SnapAction::Get(i) => vec![Obs::Item(copy.get(*i).copied())],
+                        SnapAction::GetRange(r, s, e) => match model_get(&copy, r) {
+                            None => vec![Obs::NoRange],
+                            Some(sl) => run_sched(Box::new(ReadIt(sl.iter(), |x: &Item| *x)), s, *e),
+                        },
+                        SnapAction::GetMut(i, nv) => vec![Obs::Item(copy.get_mut(*i).map(|slot| {
+                            let old = *slot;
+                            *slot = *nv;
+                            old
+                        }))],
+                        SnapAction::GetMutRange(r, s, e) => match model_get_mut(&mut copy, r) {
+                            None => vec![Obs::NoRange],
+                            Some(sl) => run_sched(Box::new(WriteIt(sl.iter_mut(), |x: &&mut Item| **x, |x: &mut &mut Item, v: Item| **x = v)), s, *e),
+                        },
+                    };
+                    m.extend(t);
+                    if consumed {
+                        break;
+                    }
+                    m.push(Obs::Sep);
+                }
+                if !consumed {
+                    // what the form shows through itself afterwards
+                    m.push(Obs::Items(copy.clone()));
+                    m.push(Obs::Len(copy.len()));
+                }
+                let mutslice_consumed = consumed && form == Form::MutSlice;
+                ev!(self.ctx, "{n} snap {form:?} actions={:?} len={flen}", specs.iter().map(|x| x.0 % 8).collect::<Vec<_>>());
                 if self.cmp_traces(op.kind(), &res.trace, &m) {
                     return None;
                 }
-                if let (Some(after), false) = (res.after, consumed) {
+                if let (Some(after), true) = (res.after, !consumed || mutslice_consumed) {
                     self.ctx.checked();
                     let same = after.len() == copy.len() && after.iter().zip(copy.iter()).all(|(a, b)| self.same(a, b));
                     if !same {
                         self.ctx.fail(
                             &format!("contents:{}", op.kind()),
                             &format!("{}:{}", d.name, op.kind()),
-                            format!("form contents after action {}: sut={after:?} model={copy:?}", action % 8),
+                            format!("storage under the form after actions {:?}: sut={after:?} model={copy:?}", specs.iter().map(|x| x.0 % 8).collect::<Vec<_>>()),
                         );
                         return None;
                     }
